@@ -6,6 +6,7 @@
 # the same lines is applied with --3way; one that no longer applies is reported as such.
 export GOFLAGS=-mod=mod GOPROXY=off GOSUMDB=off GOTOOLCHAIN=local
 OUT=/verif/seeded/RECHECK.md
+[ -n "${1:-}" ] && OUT=/tmp/RECHECK-$1.md   # a partial run never replaces the full table
 TMP=$(mktemp /tmp/recheck-XXXXXX)
 for d in /verif/seeded/${1:-}*/; do
   id=$(basename "$d"); [ -f "$d/meta.json" ] || continue
